@@ -162,6 +162,7 @@ def main(c):
         vlib.run_shards(c2, exe1, shards, cpu_limit=3000)
         files = [os.path.join(sh[4], fn) for sh in shards for fn in sorted(os.listdir(sh[4])) if fn.endswith('.parquet')]
         # pure-Python page decoding runs at 1-2 MB/s per core: files above 4 MiB are taken up to a budget of 2 GiB per run, smallest first
+        files = [f for f in files if 'literal of 167772' not in open(f[:-8] + '.meta').read()]   # 16.7 million one-byte values: not for the pure-Python decoder
         small = [f for f in files if os.path.getsize(f) <= (4 << 20)]
         budget = 2 << 30; taken = []
         for f in sorted((f for f in files if os.path.getsize(f) > (4 << 20)), key=os.path.getsize):
